@@ -333,6 +333,11 @@ func (a *actor) runReader(t *thread) {
 		a.later(func() {
 			w.deliveries = append(w.deliveries, dp)
 			a.pc = n + 1
+			if a.gen == w.gen && w.client != nil {
+				if dump := mqtt.VerifDump(w.client); strings.Contains(dump, "writeSem=") {
+					e.D = strings.Fields(dump[strings.Index(dump, "writeSem=")+9:])[0]
+				}
+			}
 			w.ev(e)
 		})
 		// the application asks ReadBackoff right after the return, as the
